@@ -47,8 +47,11 @@ fill(tsk_table_collection_t *t, int variant)
     if (variant & 1) {
         ret = tsk_table_collection_set_time_units(t, b, 1);
         sym_assume(ret == 0);
-        ret = tsk_reference_sequence_set_data(&t->reference_sequence, md, 2);
-        sym_assume(ret == 0);
+        /* a reference sequence may have a url / metadata but no sequence data */
+        if (sym_choice("refdata", 0, 1)) {
+            ret = tsk_reference_sequence_set_data(&t->reference_sequence, md, 2);
+            sym_assume(ret == 0);
+        }
         ret = tsk_reference_sequence_set_url(&t->reference_sequence, b, 1);
         sym_assume(ret == 0);
         ret = tsk_reference_sequence_set_metadata(&t->reference_sequence, md, 1);
@@ -169,6 +172,10 @@ main_c05(void)
     ret = tsk_table_collection_dumpf(&t, f, 0);
     sym_assert(ret == 0, "dump 3 ok");
     sym_file_rewind(f);
+    /* back-to-back objects must also load from a stream that cannot seek (pipe, socket) */
+    if (!sym_choice("seekable", 0, 1)) {
+        f = sym_file_unseekable(f);
+    }
 
     ret = tsk_table_collection_loadf(&t2, f, 0);
     sym_assert(ret == 0, "load 1 ok");
